@@ -82,6 +82,10 @@ Definition pt_cardinal (po : operands) : pcat :=
 Definition ptPT_cardinal (po : operands) : pcat :=
   if N.eqb (op_i po) 1 && N.eqb (op_v po) 0 then ONE else OTHER.
 
+(* nn, eo, lb (and many more): one <- n = 1.  These languages have cardinal but NO ordinal rules in the CLDR 37 tables:
+   PluralRules::construct negotiates the ordinal request against the ordinal list and falls back to the default, en *)
+Definition n1_cardinal (po : operands) : pcat := if n_is po 1 then ONE else OTHER.
+
 Definition other_only (po : operands) : pcat := OTHER.
 
 (* language subtag = the bytes before the first '-' *)
@@ -105,6 +109,7 @@ Definition rules_for_locale (first_locale : bytes) (ty : ntype) : operands -> pc
       else if str_is "lt" l then lt_cardinal
       else if str_is "cs" l then cs_cardinal
       else if str_is "ja" l then other_only
+      else if str_is "nn" l || str_is "eo" l || str_is "lb" l then n1_cardinal
       else en_cardinal
   | Ordinal =>
       if str_is "pt" l then other_only
